@@ -595,21 +595,25 @@ func (s *Service) RestoreTopic(topic string) error {
 }
 
 func (s *Service) CloseTopic(topic string) error {
+	// Delete running topic.
+	// This delivers the events still queued for the topic's handlers and must not hold s.mu:
+	// a publish (or aggregate) handler delivers through Collect, which takes s.mu.
+	s.topics.DeleteTopic(topic)
+
 	s.mu.Lock()
 	defer s.mu.Unlock()
-
-	// Delete running topic
-	s.topics.DeleteTopic(topic)
 	s.closedTopics[topic] = true
 
 	return nil
 }
 
 func (s *Service) DeleteTopic(topic string) error {
+	// Delete running topic, without holding s.mu for the same reason as in CloseTopic.
+	s.topics.DeleteTopic(topic)
+
 	s.mu.Lock()
 	defer s.mu.Unlock()
 	delete(s.closedTopics, topic)
-	s.topics.DeleteTopic(topic)
 	return s.topicsStore.Update(func(tx storage.Tx) error {
 		return tx.Delete(topic)
 	})
